@@ -36,6 +36,9 @@ type Node struct {
 	FailLstat   bool
 	FailReadAt  int  // >0: Read fails with EIO after this many bytes
 	FailReaddir bool
+	// ReaddirCut > 0: listing the directory returns the first ReaddirCut-1
+	// names together with an error (getdents failing part-way)
+	ReaddirCut int
 	Vanish      bool // listed by the parent but gone when opened/lstat'ed
 	// Morph, if set, is what the entry has become by the time it is opened for reading
 	// (a type change between the first look and the open)
@@ -106,6 +109,9 @@ type FS struct {
 	Short int  // >0: reads deliver at most 1..Short bytes (chosen by the scheduler)
 	// ShortBudget bounds how many reads are shortened (0 = unlimited); afterwards reads are full
 	ShortBudget int
+	// EOFWithData: the read that delivers the last bytes of a file may return
+	// them together with io.EOF (legal for an io.Reader), chosen by the scheduler
+	EOFWithData bool
 	shortUsed   int
 }
 
@@ -250,6 +256,10 @@ func (f *file) Readdirnames(n int) ([]string, error) {
 	for _, k := range f.n.Kids {
 		out = append(out, k.Name)
 	}
+	if f.n.ReaddirCut > 0 {
+		simCount("fs-readdir-partial")
+		return out[:min(f.n.ReaddirCut-1, len(out))], pathError("readdirnames", f.path, syscall.EIO)
+	}
 	return out, nil
 }
 
@@ -261,11 +271,16 @@ func (f *file) Read(p []byte) (int, error) {
 		return 0, pathError("read", f.path, os.ErrInvalid)
 	}
 	limit := len(p)
+	eofWithData := false
 	if f.fs.Park {
 		simrt.Park("fs", "read "+f.path, func(t *simrt.Tape) string {
 			if f.fs.Short > 0 && limit > 1 && (f.fs.ShortBudget == 0 || f.fs.shortUsed < f.fs.ShortBudget) {
 				f.fs.shortUsed++
 				limit = 1 + t.Choose(min(f.fs.Short, limit))
+			}
+			if f.fs.EOFWithData && f.off < len(f.n.Data) && f.off+limit >= len(f.n.Data) && t.Choose(2) == 1 {
+				eofWithData = true
+				return "eof-with-data"
 			}
 			return ""
 		})
@@ -282,6 +297,10 @@ func (f *file) Read(p []byte) (int, error) {
 	}
 	n := copy(p[:limit], f.n.Data[f.off:])
 	f.off += n
+	if eofWithData && f.off >= len(f.n.Data) && (f.n.FailReadAt <= 0 || f.n.FailReadAt > len(f.n.Data)) {
+		simCount("fs-eof-with-data")
+		return n, io.EOF
+	}
 	return n, nil
 }
 
